@@ -449,8 +449,11 @@ def route_twice(ni: int, nj: int, pi: int, sel_first: bool, absent_first: bool, 
     # two parses in one process: a restricted parse of a file with section ni (selection: that pair and/or
     # a pair absent from the file), then a parse of ANOTHER file (section nj, no section for the first
     # selection): the second result is what it would be as the first parse
+    r0 = H.REACHED[0]
     a = _route_core(ni, 0, 0, False, 0, False, sel_first, False, absent_first, 0)
     b = _route_core(nj, 0, pi, False, 0, use_none2, sel2, False, False, 0)
+    if H.REACHED[0] > r0 + 1:
+        H.REACHED[0] = r0 + 1          # one explored case, although both parses report through done()
     return a and b
 
 
